@@ -11,6 +11,7 @@ from passlib.utils import (
     handlers as uh,
 )
 from passlib.utils import (
+    as_bool,
     splitcomma,
     to_unicode,
 )
@@ -49,12 +50,19 @@ _forbidden_scheme_options = set(["salt"])
 # dict containing funcs used to coerce strings to correct type for scheme option keys.
 # NOTE: this isn't really needed any longer, since Handler.using() handles the actual parsing.
 #       keeping this around for now, though, since it makes context.to_dict() output cleaner.
+def _coerce_bool(value):
+    """parse boolean string (as written by to_string()) back into a bool"""
+    return as_bool(value, param="truncate_error")
+
+
 _coerce_scheme_options = dict(
     min_rounds=int,
     max_rounds=int,
     default_rounds=int,
+    rounds=int,
     vary_rounds=_coerce_vary_rounds,
     salt_size=int,
+    truncate_error=_coerce_bool,
 )
 
 
